@@ -158,7 +158,40 @@ class NF:
             return self._index(xs[1], const(xs[2][1] + i[1]))
         if xs[0] == "list" and is_const(i) and isinstance(i[1], int) and -len(xs) + 1 <= i[1] < len(xs) - 1:
             return xs[1 + i[1]] if i[1] >= 0 else xs[len(xs) + i[1]]
+        # xs[:n][k] == xs[k]  for 0 <= k < n
+        if xs[0] == "slice" and xs[2] in (NONE, const(0)) and is_const(xs[3]) and isinstance(xs[3][1], int) and is_const(i) \
+                and isinstance(i[1], int) and 0 <= i[1] < xs[3][1]:
+            return self._index(xs[1], i)
+        # (X + [a, b])[k]: decided by what the path knows about len(X); the padding idiom (X + [None])[k] with an open
+        # question reads as  X[k] if len(X) > k else None
+        if xs[0] == "concat" and xs[2][0] == "list" and is_const(i) and isinstance(i[1], int) and i[1] >= 0:
+            k = i[1]
+            lo, hi = self._len_bounds(xs[1])
+            if k < lo:
+                return self._index(xs[1], i)
+            if hi is not None and lo == hi and k - hi < len(xs[2]) - 1:
+                return xs[2][1 + k - hi]
+            if hi is not None and hi == k + 1 and lo == k and len(xs[2]) == 2:
+                return ("ifexp", ("cmp", ">", ("len", xs[1]), const(k)), self._index(xs[1], i), xs[2][1])
         return ("index", xs, i)
+
+    def _len_bounds(self, xs):
+        """(lo, hi) of len(xs) as far as the path state knows it"""
+        st = getattr(self, "state", None)
+        if st is None:
+            return 0, None
+        base = xs[2] if xs[0] == "map" else xs
+        lo, hi = 0, None
+        for key, iv in getattr(st, "len_iv", {}).items():
+            try:
+                n = self.nf(key)
+            except RecursionError:
+                continue
+            nb = n[2] if n[0] == "map" else n
+            if nb == base:
+                lo = max(lo, iv[0])
+                hi = iv[1] if hi is None else (hi if iv[1] is None else min(hi, iv[1]))
+        return lo, hi
 
     def _slice(self, xs, lo, hi, step):
         if step != NONE:
